@@ -317,6 +317,15 @@ def gen_prog(rng, f1_only=False, max_params=3, delims=True, allow_nested=True, n
             return [word() for _ in range(rng.randint(0, 1))] + [['def', False, inner, inp, None, ib, {'kind': 'def'}]] + [word() for _ in range(rng.randint(0, 1))]
         vinner.pop(i, None)
         b = content(2, np, list(range(i)), n=rng.randint(0, 4), allow_def=False)
+        cands = [a for a in range(i) if sigs[a][1].get('kind') == 'def' and not sigs[a][1].get('delims')]
+        if not f1_only and expandafters and cands and rng.random() < 0.15:
+            # \\expandafter\\a\\b inside the body: the feeder \\b is defined (locally) right before
+            a = rng.choice(cands)
+            fid = 40 + feeder_ids[0]
+            feeder_ids[0] += 1
+            fb = [['group', [word() for _ in range(rng.randint(0, 2))], 'brace'] for _ in range(sigs[a][0])] + [word() for _ in range(rng.randint(0 if sigs[a][0] else 1, 2))]
+            b.insert(rng.randint(0, len(b)), ['expandafter', a, fid])
+            b.insert(0, ['def', False, fid, 0, None, fb, {'kind': 'def'}])
         if not f1_only and nested and rng.random() < 0.4:
             # a definition nested in the body: its own parameters are written ##k there (DefCommand removes one level of #)
             inner = 30 + inner_ids[0]
@@ -475,7 +484,7 @@ def _opt_ok(o):
 def _fa(n):
     """Spec/MacroPrint.fa_node: argument text"""
     k = n[0]
-    if k in ('word', 'let', 'newsw', 'setsw', 'step', 'setc', 'addc'):
+    if k in ('word', 'let', 'newsw', 'setsw', 'step', 'setc', 'addc', 'expandafter'):
         return True
     if k == 'group':
         return all(_fa(x) for x in n[1])
@@ -494,7 +503,7 @@ def _fb(np, n, d):
     """Spec/MacroPrint.fb_node: body of a macro with np parameters; a parameter sits at nesting depth at most d (argument text,
     which has no parameter, may sit at any depth)"""
     k = n[0]
-    if k in ('word', 'let', 'newsw', 'setsw', 'step', 'setc', 'addc'):
+    if k in ('word', 'let', 'newsw', 'setsw', 'step', 'setc', 'addc', 'expandafter'):
         return True
     if k == 'param':
         return 1 <= n[1] <= np
@@ -516,7 +525,7 @@ def _fb(np, n, d):
 def _fi(np, m, n, d):
     """Spec/MacroPrint.fi_node: body of a definition with m parameters (##k) written inside the body of a macro with np parameters (#k)"""
     k = n[0]
-    if k in ('word', 'let', 'newsw', 'setsw', 'step', 'setc', 'addc'):
+    if k in ('word', 'let', 'newsw', 'setsw', 'step', 'setc', 'addc', 'expandafter'):
         return True
     if k == 'param':
         return 1 <= n[1] <= np
@@ -584,8 +593,13 @@ def _f2(n):
 
 
 def has_expandafter(prog):
-    return any(x[0] == 'expandafter' or (x[0] == 'group' and has_expandafter(x[1])) or
-               (x[0] == 'cond' and (has_expandafter(x[2]) or (x[3] is not None and has_expandafter(x[3])))) for x in prog)
+    def walk(x):
+        if isinstance(x, list):
+            if x and x[0] == 'expandafter':
+                return True
+            return any(walk(y) for y in x)
+        return False
+    return walk(prog)
 
 
 def has_nested_def(prog):
